@@ -664,6 +664,14 @@ fn twin_c05_c20() -> R {
                 Ok(None) => {}
                 other => return Err(format!("prefix {} of {:?}: {:?}", cut, String::from_utf8_lossy(&head), other.map(|o| o.map(|x| x.0)))),
             }
+            // input ending inside or right after the status line decides nothing, whatever the field limit (C11 uses limit 0)
+            let status_line_len = head.iter().position(|&b| b == b'\n').unwrap() + 1;
+            if cut <= status_line_len {
+                match try_parse_response::<0>(pre) {
+                    Ok(None) => {}
+                    other => return Err(format!("limit 0: prefix {} of {:?}: {:?}", cut, String::from_utf8_lossy(&head), other.map(|o| o.map(|x| x.0)))),
+                }
+            }
             match try_parse_partial_response::<8>(pre) {
                 Ok(None) => {}
                 Ok(Some(r)) => {
@@ -1244,6 +1252,60 @@ fn twin_c10_c11_c09() -> R {
             }
         }
     }
+    // successor after the response: Redirect iff the STATUS is a 3xx other than 304, whatever Location says,
+    // and the same on both edges (with and without a response body)
+    for status in [200u16, 201, 204, 300, 301, 302, 303, 304, 305, 307, 308, 399, 400] {
+        for location in [false, true] {
+            for body in [false, true] {
+                n += 1;
+                let mut head = format!("HTTP/1.1 {} X\r\n", status);
+                if location {
+                    head.push_str("Location: /items/1\r\n");
+                }
+                head.push_str(if body { "Content-Length: 2\r\n\r\n" } else { "Content-Length: 0\r\n\r\n" });
+                let mut rr = to_recv_response(get_req())?;
+                match rr.try_response(head.as_bytes()) {
+                    Ok((u, Some(_))) if u == head.len() => {}
+                    other => return Err(format!("response {:?} -> {:?}", head, other.map(|o| (o.0, o.1.is_some())))),
+                }
+                let want_redirect = (300..400).contains(&status) && status != 304;
+                let has_body = body && status != 204 && status != 304;
+                let got = match rr.proceed() {
+                    Some(RecvResponseResult::RecvBody(mut rb)) => {
+                        if !has_body {
+                            return Err(format!("RecvBody for a response without body: {:?}", head));
+                        }
+                        let mut o = [0u8; 8];
+                        rb.read(b"ok", &mut o).map_err(|e| format!("{:?}", e))?;
+                        if !rb.can_proceed() {
+                            return Err("sized body not complete".into());
+                        }
+                        match rb.proceed() {
+                            Some(RecvBodyResult::Redirect(_)) => true,
+                            Some(RecvBodyResult::Cleanup(_)) => false,
+                            None => return Err("RecvBody::proceed None although can_proceed".into()),
+                        }
+                    }
+                    Some(RecvResponseResult::Redirect(_)) => {
+                        if has_body {
+                            return Err(format!("body skipped: {:?}", head));
+                        }
+                        true
+                    }
+                    Some(RecvResponseResult::Cleanup(_)) => {
+                        if has_body {
+                            return Err(format!("body skipped: {:?}", head));
+                        }
+                        false
+                    }
+                    None => return Err("RecvResponse::proceed None after a response".into()),
+                };
+                if got != want_redirect {
+                    return Err(format!("successor after {:?}: redirect={} want {}", head, got, want_redirect));
+                }
+            }
+        }
+    }
     Ok((n, n))
 }
 
@@ -1526,7 +1588,29 @@ fn twin() {
             continue;
         }
         let t0 = std::time::Instant::now();
-        match f() {
+        // a panic raised INSIDE the library (location under src/) on input the public API accepts is a failing
+        // input like any other; a panic of the twin's own code is a harness error and is left to propagate
+        let loc = std::sync::Arc::new(std::sync::Mutex::new(String::new()));
+        let loc2 = loc.clone();
+        std::panic::set_hook(Box::new(move |info| {
+            let l = info.location().map(|l| format!("{}:{}", l.file(), l.line())).unwrap_or_default();
+            let msg = info.payload().downcast_ref::<&str>().map(|s| s.to_string()).or_else(|| info.payload().downcast_ref::<String>().cloned()).unwrap_or_default();
+            *loc2.lock().unwrap() = format!("{} {}", l, msg);
+        }));
+        let res = std::panic::catch_unwind(f);
+        let _ = std::panic::take_hook();
+        let res = match res {
+            Ok(r) => r,
+            Err(p) => {
+                let l = loc.lock().unwrap().clone();
+                if l.starts_with("src/") || l.contains("/src/") && !l.contains("verif_twin") {
+                    Err(format!("the library panicked at {}", l))
+                } else {
+                    std::panic::resume_unwind(p)
+                }
+            }
+        };
+        match res {
             Ok((ev, dn)) => println!("TWIN {} {} evaluations={} distinct={} ms={}", ids.join("+"), name, ev, dn, t0.elapsed().as_millis()),
             Err(e) => {
                 println!("TWIN-FAIL {} {} {}", ids.join("+"), name, e.replace('\n', " | "));
